@@ -297,7 +297,7 @@ func (g *gen) one(idx int) *req {
 			g.noteTTL(r.ts, d)
 			break
 		}
-		switch t.Weighted([]int{14, 5, 4, 4, 4, 3, 5, 3, 6, 3, 2, 2, 3, 3, 1}) {
+		switch w := t.Weighted([]int{14, 5, 4, 4, 4, 3, 5, 3, 6, 3, 2, 2, 3, 3, 1}); w {
 		case 0:
 			set(clKV, mk("set", k, g.val()), k)
 		case 1:
@@ -329,12 +329,21 @@ func (g *gen) one(idx int) *req {
 		case 9:
 			k2 := g.kvkey()
 			set(clKV, mk("del", k, k2), k, k2)
-		case 10:
+		case 10, 11:
+			name := "mset"
+			if w == 11 {
+				name = "plset"
+			}
 			k2 := g.kvkey()
-			set(clKV, mk("mset", k, g.val(), k2, g.val()), k, k2)
-		case 11:
-			k2 := g.kvkey()
-			set(clKV, mk("plset", k, g.val(), k2, g.val()), k, k2)
+			if t.Bool(g.badPm) {
+				// a later key the apply handler refuses (no table / over-long)
+				// after the earlier pair was put into the write batch
+				g.lastBad = true
+				bk := []string{"notable", strings.Repeat("K", 10300)}[t.Choose(2)]
+				set(clKV, mk(name, k, g.val(), bk, g.val()), k)
+			} else {
+				set(clKV, mk(name, k, g.val(), k2, g.val()), k, k2)
+			}
 		case 12:
 			args := []string{k, g.val(), g.val()}
 			if t.Bool(300) {
